@@ -962,8 +962,10 @@ def c15(ctx):
                 "exclusion subsets x all kind subsets x 2 table variants: exclusions stay inside the word, excluded symbols survive "
                 "(action property), every mechanism step is a property-layer step; A: words up to %d symbols x all exclusion subsets x "
                 "10 kind subsets x 2 tables x {ASCII, grapheme clusters} x 6 random streams x chains of 3 on the real edit_word with "
-                "the real InsertEdits/ReplaceEdits providers, and direct provider calls at index 0 / last / len / beyond; B: random "
-                "words, tables, chains. non-trivial = the word changed / provider call at a word boundary" % ml)
+                "the real InsertEdits/ReplaceEdits providers, direct provider calls at index 0 / last / len / beyond, and the chain as the "
+                "library runs it (spelling corruption in artificial mode on every word up to %d letters, edit probability 1 and 1/2: the output "
+                "is reachable by that many edit_word results, each with the exclusion set of the one before); B: random "
+                "words, tables, chains. non-trivial = the word changed / provider call at a word boundary" % (ml, ml + 1))
     ctx.assumptions = ["the harness uses pairwise distinct symbols per word so that identity = value",
                        "tables with two different lists for one context (hash-map overwrite) and results that do not segment back "
                        "into table symbols are skipped and counted"]
@@ -971,8 +973,8 @@ def c15(ctx):
            "PROPERTY ExcludedSurvive\nCHECK_DEADLOCK FALSE\n")
     vlib.mc(ctx, "MC_EditWord", cfg, name="MC_EditWord")
     gcfg = "CONSTANTS MaxLen = %d\nINIT Init\nNEXT Next\nCHECK_DEADLOCK FALSE\n" % ml
-    cases, n = vlib.tlc_generate(ctx, "Gen_EditWord", gcfg, "cases-a.ndjson")
-    keys = ["kind", "ws", "excl", "kinds", "w2s", "excl2", "which", "idx", "some"]
+    cases, n = vlib.tlc_generate(ctx, "Gen_EditWord", gcfg, "cases-a.ndjson", env={"SPELL": "1"})
+    keys = ["kind", "ws", "excl", "kinds", "w2s", "excl2", "which", "idx", "some", "w", "out", "pone", "full"]
     vlib.exec_and_judge(ctx, "editword", cases, "Trace_EditWord", "A", sample_keys=keys)
     ctx.exhaustive = True
     rnd = ctx.path("cases-b.ndjson")
